@@ -1197,7 +1197,8 @@ class Interp:
             if isinstance(op, (ast.Lt, ast.LtE, ast.Gt, ast.GtE)):
                 num = frozenset(["int", "float", "bool", "obj:Fraction"])
                 ok = (left.kinds <= num and right.kinds <= num) or (left.kinds <= frozenset(["str"]) and right.kinds <= frozenset(["str"])) \
-                    or (left.kinds <= frozenset(["tuple"]) and right.kinds <= frozenset(["tuple"]))
+                    or (left.kinds <= frozenset(["tuple"]) and right.kinds <= frozenset(["tuple"])) \
+                    or (left.kinds <= frozenset(["opaque"]) and right.kinds <= frozenset(["opaque"]))     # two results of a caller-supplied callable (a sort key): nothing known, nothing claimed
                 self.need(ok, "TypeError", e, "ordering comparison between values that may not be comparable: %s" % norm(e)[:50], "%s vs %s" % (left.describe(), right.describe()))
             elif isinstance(op, (ast.In, ast.NotIn)):
                 k = right.kinds
